@@ -386,7 +386,9 @@ def handle (op : String) : P String := do
   /- network.rs / feedback.rs / layers -/
   | "net" => do
     let n ← network
-    let cmd ← tok
+    let cmd0 ← tok
+    -- "warm": the implementation evaluates the network before and after configuring it; the model has no memory
+    let cmd ← (if cmd0 = "warm" then tok else pure cmd0)
     match cmd with
     | "shapes" =>
       pure (respond n (fun n =>
